@@ -1301,7 +1301,7 @@ fn main() {
     }
 
     // 3. random plans
-    ctx.run_prop("random-plans", arb_case, tier.pick(1_000_000, 60_000_000), check_case);
+    ctx.run_prop("random-plans", arb_case, tier.pick(4_000_000, 60_000_000), check_case);
     ctx.require_label_fraction("random-plans", "boundary-tight", 0.10);
     ctx.require_label_fraction("random-plans", "dropped>=1-and-kept>=1", 0.03);
     ctx.require_label_fraction("random-plans", "cap-reached", 0.03);
@@ -1312,20 +1312,20 @@ fn main() {
     }
 
     // 4. huge answers (own class: the pre-identified unchecked product lives here)
-    ctx.run_prop("huge-oracle-answers", arb_huge_case, tier.pick(300_000, 8_000_000), check_huge_case);
+    ctx.run_prop("huge-oracle-answers", arb_huge_case, tier.pick(1_000_000, 8_000_000), check_huge_case);
 
     // 5. the real preparation planner over generated wallets
-    ctx.run_prop("real-preparation", arb_real_case, tier.pick(120_000, 6_000_000), check_real_case);
+    ctx.run_prop("real-preparation", arb_real_case, tier.pick(500_000, 6_000_000), check_real_case);
     ctx.require_label_fraction("real-preparation", "needs-preparation-txs", 0.10);
 
     // 6. the engine's plan preview publishes exactly that plan
-    ctx.run_prop("engine-preview", arb_engine_case, tier.pick(100_000, 3_000_000), check_engine_case);
+    ctx.run_prop("engine-preview", arb_engine_case, tier.pick(400_000, 3_000_000), check_engine_case);
     ctx.require_label_fraction("engine-preview", "engine:plan", 0.50);
     ctx.require_min_count("engine-preview", "engine:nothing-to-migrate", 50);
     ctx.require_min_count("engine-preview", "single-note-exception", 100);
 
     // 7. from_stored_parts accepts exactly the representable parts
-    ctx.run_prop("stored-parts", arb_stored, tier.pick(200_000, 4_000_000), check_stored);
+    ctx.run_prop("stored-parts", arb_stored, tier.pick(800_000, 4_000_000), check_stored);
     ctx.require_label_fraction("stored-parts", "accepted", 0.10);
     ctx.require_label_fraction("stored-parts", "rejected", 0.10);
 
